@@ -120,7 +120,7 @@ func run(r *report.Run, shard, nshards int, replayFile string) {
 	}
 	e.unmDenom = "factory/" + e.adm.Addr.String() + "/unm"
 	e.gov = skywaykeeper.NewSkywayProposalHandler(w.App.SkywayKeeper)
-	e.deadline = r.Deadline(170*time.Second, 27*time.Minute)
+	e.deadline = r.Deadline(240*time.Second, 27*time.Minute)
 
 	r.Rule = "tax: full product amount x rate string x {non-exempt, exempt} x funding {a+tax-1, a+tax, a+tax+5}; each case = signed MsgSendToRemote on a fork, then (fork 1) MsgCancelSendToRemote, (fork 2) batch built by skyway.EndBlocker at h%50==0 + 3 MsgBatchSendToRemoteClaim + tally; a case is distinct by (amount, rate, exempt, funding, outcome). " +
 		"limit: per scenario (coverage.limit_scenarios: period, limit, kinds, D) every sequence (no merging of states) of <= D signed sends, each step = kind {limited U1/U2, exempt EX, POOR = limited without funds, UNM = unmapped denom, FREE = token without limit}(amount) x height in {h0,h0+1,h0+W-1,h0+W,h0+W+1,h0+2W}, heights non-decreasing; a case is distinct by (period, limit, kind, amount, height index, reference window state, outcome)"
@@ -868,8 +868,8 @@ func (e *env) partLimit() {
 	if !e.r.Thorough() {
 		cfgs = []*limCfg{
 			e.newCfg("DAILY", k, 4, 0),
-			e.newCfg("WEEKLY", k, 4, 0),
 			e.newCfg("DAILY", k, 3, 1),
+			e.newCfg("WEEKLY", k, 3, 1),
 			e.newCfg("MONTHLY", k, 3, 0),
 			e.newCfg("YEARLY", k, 3, 0),
 			e.newCfg("NONE", k, 2, 2),
@@ -890,7 +890,7 @@ func (e *env) partLimit() {
 			e.newCfg("ABSENT", k, 3, 2),
 			e.newCfg("DAILY", big.NewInt(0), 3, 2),
 			e.newCfg("DAILY", big.NewInt(1), 4, 1),
-			e.newCfg("WEEKLY", big.NewInt(7), 4, 1),
+			e.newCfg("WEEKLY", big.NewInt(7), 4, 0),
 			e.newCfg("DAILY", pow2(128), 4, 0),
 			e.newCfg("YEARLY", pow2(200), 3, 1),
 		}
